@@ -3,7 +3,7 @@
    whitening inverses, geometries, shank vectors, neighbourhood sizes, thresholds and requests: no size bound.
    Templates are lists of columns; the threshold fraction is p/q (Model.v). *)
 From Coq Require Import ZArith List Bool Arith Permutation.
-From PV Require Import Base.NpSort C05.Model C05.Spec C05.Proofs C05.Proofs2 C05.Proofs3 C05.Proofs4 C05.Proofs5.
+From PV Require Import Base.NpSort C05.Model C05.Spec C05.Proofs C05.Proofs2 C05.Proofs3 C05.Proofs4 C05.Proofs5 C05.Proofs6 C05.Proofs7 C05.Proofs8.
 Import ListNotations.
 Open Scope Z_scope.
 
@@ -260,3 +260,233 @@ Proof.
   - intros p0 [<-|[<-|[<-|[<-|[]]]]]; vm_compute; repeat constructor; cbn; intuition congruence.
   - vm_compute. repeat constructor; cbn; intuition congruence.
 Qed.
+
+(* ================================================================================================================ *)
+(* Stage 3.                                                                                                          *)
+(* ---- the comparator's tie tests are sufficient --------------------------------------------------------------------
+   Corr.v demands equality with the model (run under the stable oracle) only on observables that the tests
+   Spec.nearest_determined / Spec.nodupZ_b declare determined.  These theorems justify every such demand: for ANY two
+   oracles that return sorting permutations the model agrees on exactly those observables. *)
+(* no distance tie across the neighbourhood boundary: the set of the n nearest channels is unique *)
+Theorem C05_nearest_determined_unique : forall P b n N1 N2,
+  nearest_determined P b n = true -> Nearest P b n N1 -> Nearest P b n N2 -> forall c, In c N1 <-> In c N2.
+Proof. exact nearest_unique. Qed.
+Print Assumptions C05_nearest_determined_unique.
+
+(* dense storage: the model returns under one oracle iff under the other, with the same best_channel; with an explicit
+   list the same record; without one the same SET of channels when the neighbourhood is determined, and the same
+   record when moreover the amplitudes of the model's listed channels are pairwise distinct (judge_dense, code 1) *)
+Theorem C05_dense_tie_test_sufficient : forall a1 a2 d r m,
+  Argsort_ok a1 -> Argsort_ok a2 -> d_cols d = None -> NoDup (d_pos d) -> 0 <= d_nclosest d ->
+  get_template a1 d r = Some m ->
+  exists m2, get_template a2 d r = Some m2 /\ t_best m2 = t_best m /\
+    match r_chans r with
+    | Some _ => m2 = m
+    | None => nearest_determined (d_pos d) (t_best m) (d_nclosest d) = true ->
+              usort (t_channels m2) = usort (t_channels m) /\
+              (nodupZ_b (t_amplitude m) = true -> m2 = m)
+    end.
+Proof.
+  intros a1 a2 d r m A1 A2 Hc HP Hn. unfold get_template. rewrite Hc. now apply dense_tie_test_sufficient.
+Qed.
+Print Assumptions C05_dense_tie_test_sufficient.
+
+(* sparse storage: same best_channel and same set of channels for every oracle; the same record when the model's
+   amplitudes are pairwise distinct (judge_sparse, code 1) *)
+Theorem C05_sparse_tie_test_sufficient : forall a1 a2 d table r m,
+  Argsort_ok a1 -> Argsort_ok a2 -> d_cols d = Some table -> get_template a1 d r = Some m ->
+  exists m2, get_template a2 d r = Some m2 /\ t_best m2 = t_best m /\
+    usort (t_channels m2) = usort (t_channels m) /\ (nodupZ_b (t_amplitude m) = true -> m2 = m).
+Proof.
+  intros a1 a2 d table r m A1 A2 Hc. unfold get_template. rewrite Hc. now apply sparse_tie_test_sufficient.
+Qed.
+Print Assumptions C05_sparse_tie_test_sufficient.
+
+(* where the model raises (None) it does so for every oracle: an expected exception never depends on argsort *)
+Theorem C05_raises_oracle_independent : forall a1 a2 d r,
+  Argsort_ok a1 -> Argsort_ok a2 -> NoDup (d_pos d) -> 0 <= d_nclosest d ->
+  get_template a1 d r = None -> get_template a2 d r = None.
+Proof.
+  intros a1 a2 d r A1 A2 HP Hn. unfold get_template. destruct (d_cols d) as [table|].
+  - now apply sparse_raises_oracle_independent.
+  - now apply dense_raises_oracle_independent.
+Qed.
+Print Assumptions C05_raises_oracle_independent.
+
+(* ---- get_cluster_channels / get_template_channels / get_template_waveforms ------------------------------------------ *)
+(* _get_template_from_spikes picks the template with the most spikes among the cluster's spikes, the smallest id
+   among equally frequent ones; it exists iff the cluster has a spike *)
+Theorem C05_main_template : forall st sc cid tid, main_template st sc cid = Some tid <-> Main_template st sc cid tid.
+Proof. intros. split; [apply main_template_spec|apply main_template_complete]. Qed.
+Print Assumptions C05_main_template.
+
+Theorem C05_template_accessors : forall argsort d tid,
+  get_template_channels argsort d tid = option_map t_channels (get_template argsort d (mkreq tid None None true)) /\
+  get_template_waveforms argsort d tid = option_map t_template (get_template argsort d (mkreq tid None None true)).
+Proof. exact template_accessors_spec. Qed.
+Print Assumptions C05_template_accessors.
+
+(* get_cluster_channels returns exactly the channel list of get_template (class threshold, no explicit list,
+   unwhitened) of the cluster's main template, and raises exactly when there is none or get_template raises *)
+Theorem C05_cluster_channels : forall argsort d st sc cid chans,
+  get_cluster_channels argsort d st sc cid = Some chans <->
+  exists tid rec, Main_template st sc cid tid /\ get_template argsort d (default_request tid) = Some rec /\
+                  chans = t_channels rec.
+Proof. exact cluster_channels_spec. Qed.
+Print Assumptions C05_cluster_channels.
+
+(* ... hence, dense: the channels of a cluster are distinct and are (some set of the n nearest of a peak channel of the
+   main template's unwhitened waveform) /\ (its shank) /\ (reaching the class threshold) *)
+Theorem C05_cluster_channels_dense : forall argsort, Argsort_ok argsort -> forall d st sc cid chans,
+  d_cols d = None -> 0 <= d_nclosest d -> get_cluster_channels argsort d st sc cid = Some chans ->
+  exists tid T b, Main_template st sc cid tid /\ Full_template d (default_request tid) T /\ Peak T b /\
+    Dense_channels (d_pos d) (d_shanks d) (d_nclosest d) (d_thr d) T b chans /\ NoDup chans.
+Proof.
+  intros argsort AS d st sc cid chans Hc Hn H. apply cluster_channels_spec in H.
+  destruct H as (tid & rec & HM & Hr & ->).
+  destruct (C05_dense_channels argsort AS d (default_request tid) rec Hc Hn eq_refl Hr) as (T & HT & HP & HD).
+  destruct (C05_sorted argsort AS d (default_request tid) rec Hc Hn eq_refl Hr) as (T' & _ & (Hnd & _)).
+  exists tid, T, (t_best rec). split; [exact HM|]. split; [exact HT|]. split; [exact HP|]. split; [exact HD|exact Hnd].
+Qed.
+Print Assumptions C05_cluster_channels_dense.
+
+(* ... sparse: they are the stored channels of the main template's row minus unused and signal-free ones *)
+Theorem C05_cluster_channels_sparse : forall argsort, Argsort_ok argsort -> forall d table st sc cid chans,
+  d_cols d = Some table -> get_cluster_channels argsort d st sc cid = Some chans ->
+  exists tid cols chs, Main_template st sc cid tid /\
+    nth_error (d_templates d) tid = Some cols /\ nth_error table tid = Some chs /\
+    forall c, In c chans <-> exists i, In i (kept_positions cols chs) /\ c = chan_at chs i.
+Proof.
+  intros argsort AS d table st sc cid chans Hc H. apply cluster_channels_spec in H.
+  destruct H as (tid & rec & HM & Hr & ->).
+  destruct (nth_error (d_templates d) tid) as [cols|] eqn:E1;
+    [|rewrite (template_id_exit argsort d (default_request tid) E1) in Hr; discriminate].
+  destruct (nth_error table tid) as [chs|] eqn:E2.
+  2:{ unfold get_template in Hr. rewrite Hc in Hr. unfold get_template_sparse in Hr.
+      change (r_tid (default_request tid)) with tid in Hr. rewrite E1, E2 in Hr. discriminate. }
+  exists tid, cols, chs. split; [exact HM|]. split; [exact E1|]. split; [exact E2|].
+  apply (C05_sparse_channels argsort AS d table (default_request tid) rec cols chs Hc E1 E2 Hr).
+Qed.
+Print Assumptions C05_cluster_channels_sparse.
+
+(* ---- error exits of the model (where phylib raises): the boundary of the regime, explicitly ------------------------- *)
+(* dense: an explicit id outside [0, n_channels) -- IndexError.  (phylib lets NumPy wrap ids in [-n_channels, 0) and
+   returns them verbatim; a negative number is not a channel, so such requests are outside the statement.) *)
+Theorem C05_dense_explicit_exit : forall argsort d r l,
+  d_cols d = None -> r_chans r = Some l -> ~ Forall (fun c => 0 <= c < Z.of_nat (length (d_pos d))) l ->
+  get_template argsort d r = None.
+Proof. intros argsort d r l Hc. unfold get_template. rewrite Hc. apply dense_explicit_exit. Qed.
+Print Assumptions C05_dense_explicit_exit.
+
+Theorem C05_template_id_exit : forall argsort d r,
+  nth_error (d_templates d) (r_tid r) = None -> get_template argsort d r = None.
+Proof. exact template_id_exit. Qed.
+Print Assumptions C05_template_id_exit.
+
+(* dense: a threshold fraction above 1 on a template with signal (assert best_channel in channel_ids) *)
+Theorem C05_dense_threshold_exit : forall argsort, Argsort_ok argsort -> forall d r T c,
+  d_cols d = None -> Full_template d r T -> (c < length T)%nat -> 0 < amp_of T c ->
+  0 < tq (req_thr d r) < tp (req_thr d r) -> get_template argsort d r = None.
+Proof.
+  intros argsort AS d r T c Hc HT Hlt Hamp Hthr. unfold get_template. rewrite Hc.
+  destruct (dense_full d r) as [T'|] eqn:ET.
+  - assert (T' = T) by (apply (Full_template_unique d r); [now apply dense_full_spec|assumption]). subst T'.
+    now apply (dense_threshold_exit argsort AS d r T c).
+  - unfold get_template_dense. now rewrite ET.
+Qed.
+Print Assumptions C05_dense_threshold_exit.
+
+(* sparse: get_template returns iff the row matches the stored columns, the kept entries are channels and at least
+   one column is kept (C05_sparse_defined is the <- direction) *)
+Theorem C05_sparse_defined_iff : forall argsort d table r cols chans,
+  d_cols d = Some table -> nth_error (d_templates d) (r_tid r) = Some cols -> nth_error table (r_tid r) = Some chans ->
+  ((exists rec, get_template argsort d r = Some rec) <->
+   length cols = length chans /\
+   (forall i, In i (kept_positions cols chans) -> 0 <= nth i chans 0 < Z.of_nat (length (d_pos d))) /\
+   kept_positions cols chans <> []).
+Proof. intros argsort d table r cols chans Hc. unfold get_template. rewrite Hc. apply sparse_defined_iff. Qed.
+Print Assumptions C05_sparse_defined_iff.
+
+Theorem C05_cluster_without_spikes_exit : forall argsort d st sc cid,
+  cluster_templates st sc cid = [] -> get_cluster_channels argsort d st sc cid = None.
+Proof. exact cluster_without_spikes_exit. Qed.
+Print Assumptions C05_cluster_without_spikes_exit.
+
+(* ---- the checkers are complete: with the soundness theorems above they DECIDE the clauses ---------------------------- *)
+Theorem C05_channels_checker_complete : forall P shanks n t T b ids, 0 <= n ->
+  Dense_channels P shanks n t T b ids -> dense_channels_b P shanks n t T b ids = true.
+Proof. exact dense_channels_b_complete. Qed.
+Print Assumptions C05_channels_checker_complete.
+
+Theorem C05_aligned_checker_complete : forall T r, Aligned T r -> aligned_b T r = true.
+Proof. exact aligned_b_complete. Qed.
+Print Assumptions C05_aligned_checker_complete.
+
+Theorem C05_sorted_checker_complete : forall T r, Sorted_rec T r -> sorted_b T r = true.
+Proof. exact sorted_b_complete. Qed.
+Print Assumptions C05_sorted_checker_complete.
+
+(* sparse: under the regime's "stored, used, signal-carrying channels of a row are pairwise distinct" *)
+Theorem C05_sparse_checkers_complete : forall W sc cols chans unw sigma r,
+  NoDup (map (chan_at chans) (kept_positions cols chans)) ->
+  Sparse_channels cols chans sigma r -> Sparse_aligned W sc cols chans unw sigma r -> Sparse_sorted cols chans r ->
+  sparse_channels_b cols chans r = true /\ sparse_aligned_b W sc cols chans unw r = true /\ sparse_sorted_b r = true.
+Proof.
+  intros W sc cols chans unw sigma r Hinj H1 H2 H3. split; [|split].
+  - now apply (sparse_channels_b_complete cols chans sigma).
+  - now apply (sparse_aligned_b_complete W sc cols chans unw sigma).
+  - now apply (sparse_sorted_b_complete cols chans).
+Qed.
+Print Assumptions C05_sparse_checkers_complete.
+
+(* ---- examples for stage 3 -------------------------------------------------------------------------------------------- *)
+(* Two channels tie for the maximal amplitude (amplitudes 3, 9, 1, 9): np.argmax makes channel 1 the best_channel,
+   while the reversed argsort lists channel 3 first (stable oracle; NumPy may list either).  "Peak channel first" is
+   therefore read relationally (Spec.Sorted_rec: the FIRST LISTED channel has the maximal amplitude, best_channel is
+   listed and maximal): both orders of the tied channels are accepted, a non-maximal first channel is not. *)
+Definition tie_ds (cols : option (list (list Z))) : dataset :=
+  mkds [ [[0; 3]; [0; 9]; [0; 1]; [0; 9]]; [[0; 9]; [0; 9]; [0; 3]; [0; 1]] ] cols
+       [[1; 0; 0; 0]; [0; 1; 0; 0]; [0; 0; 1; 0]; [0; 0; 0; 1]] 1
+       [mkpos 0 0; mkpos 0 20; mkpos 0 40; mkpos 0 60] [0; 0; 0; 0] 12 (mkthr 0 1).
+Example C05_ex_peak_tie :
+  get_template stable_argsort (tie_ds None) (mkreq 0 None None true) =
+    Some (mkrec [[0; 9]; [0; 9]; [0; 3]; [0; 1]] [9; 9; 3; 1] 1 [3; 1; 0; 2]%nat) /\
+  let T := [[0; 3]; [0; 9]; [0; 1]; [0; 9]] in
+  sorted_b T (mkrec [[0; 9]; [0; 9]; [0; 3]; [0; 1]] [9; 9; 3; 1] 1 [3; 1; 0; 2]%nat) = true /\
+  sorted_b T (mkrec [[0; 9]; [0; 9]; [0; 3]; [0; 1]] [9; 9; 3; 1] 1 [1; 3; 0; 2]%nat) = true /\
+  sorted_b T (mkrec [[0; 3]; [0; 9]; [0; 9]; [0; 1]] [3; 9; 9; 1] 1 [0; 1; 3; 2]%nat) = false /\
+  sorted_b T (mkrec [[0; 9]; [0; 3]; [0; 1]] [9; 3; 1] 1 [3; 0; 2]%nat) = false.
+Proof. vm_compute. repeat split. Qed.
+(* threshold 1 keeps exactly the tied channels; sparse storage shows the same disagreement (best_channel 0, first listed 1) *)
+Example C05_ex_peak_tie_threshold_sparse :
+  get_template stable_argsort (tie_ds None) (mkreq 1 None (Some (mkthr 1 1)) true) =
+    Some (mkrec [[0; 9]; [0; 9]] [9; 9] 0 [1; 0]%nat) /\
+  get_template stable_argsort (tie_ds (Some [[2; 0; 3; 1]; [0; 1; 2; 3]])) (mkreq 0 None None true) =
+    Some (mkrec [[0; 9]; [0; 9]; [0; 3]; [0; 1]] [9; 9; 3; 1] 0 [1; 0; 2; 3]%nat) /\
+  sparse_sorted_b (mkrec [[0; 9]; [0; 9]; [0; 3]; [0; 1]] [9; 9; 3; 1] 0 [0; 1; 2; 3]%nat) = true.
+Proof. vm_compute. repeat split. Qed.
+(* the tie tests: on a regular line the 2 nearest channels of an inner channel are not determined, 3 are; from the end
+   channel 2 are; every size >= the number of channels is *)
+Example C05_ex_tie_tests :
+  let P := [mkpos 0 0; mkpos 0 20; mkpos 0 40; mkpos 0 60] in
+  nearest_determined P 2 2 = false /\ nearest_determined P 2 3 = true /\ nearest_determined P 0 2 = true /\
+  nearest_determined P 2 12 = true /\ nearest_determined P 2 0 = true /\
+  nodupZ_b [9; 9; 3; 1] = false /\ nodupZ_b [28; 10] = true.
+Proof. vm_compute. repeat split. Qed.
+(* error exits: a negative id (NumPy would wrap it), an id past the last channel, a threshold above 1, a template id
+   past the last template; an EMPTY explicit array is in the regime (an empty record with the peak channel) *)
+Example C05_ex_error_exits :
+  get_template stable_argsort (tie_ds None) (mkreq 0 (Some [-1; 0]) None true) = None /\
+  get_template stable_argsort (tie_ds None) (mkreq 0 (Some [0; 4]) None true) = None /\
+  get_template stable_argsort (tie_ds None) (mkreq 0 None (Some (mkthr 5 4)) true) = None /\
+  get_template stable_argsort (tie_ds None) (mkreq 2 None None true) = None /\
+  get_template stable_argsort (tie_ds None) (mkreq 0 (Some []) None true) = Some (mkrec [] [] 1 []).
+Proof. vm_compute. repeat split. Qed.
+(* a cluster whose spikes come from templates 0, 1, 2, 1, 0: templates 0 and 1 are equally frequent, the smaller id wins;
+   a cluster without spikes raises *)
+Example C05_ex_cluster :
+  main_template [0; 1; 2; 1; 0; 2]%nat [5; 5; 5; 5; 5; 7] 5 = Some 0%nat /\
+  get_cluster_channels stable_argsort (tie_ds None) [0; 1; 2; 1; 0; 2]%nat [5; 5; 5; 5; 5; 7] 5 = Some [3; 1; 0; 2]%nat /\
+  get_cluster_channels stable_argsort (tie_ds None) [0; 1; 2; 1; 0; 2]%nat [5; 5; 5; 5; 5; 7] 6 = None /\
+  cluster_templates [0; 1; 2; 1; 0; 2]%nat [5; 5; 5; 5; 5; 7] 6 = [].
+Proof. vm_compute. repeat split. Qed.
